@@ -309,6 +309,14 @@ def check_history(desc, ctx):
     iso = K.build_point(desc["iso"])
     model = Model(desc["iso"], iso)
     _check_state(iso, model, "after construction", 0)
+    # a bystander: a second isotherm made from the first one's own table (the working-copy idiom without .copy()); no
+    # call is ever made on it, so its stored data and labels must stay what they are
+    try:
+        twin = pygaps.PointIsotherm.from_isotherm(iso, isotherm_data=iso.data_raw, pressure_key=iso.pressure_key,
+                                                  loading_key=iso.loading_key)
+        twin0 = _snapshot(twin)
+    except Exception:  # noqa - the idiom is not part of this property; without a twin the clause is simply not exercised
+        twin = twin0 = None
     effective = 0
     mode_changes = 0
     nsteps = 0
@@ -323,6 +331,11 @@ def check_history(desc, ctx):
         err = _apply(iso, op)
         post = _snapshot(iso)
         nsteps += 1
+        if twin is not None and _snapshot(twin) != twin0:
+            now = _snapshot(twin)
+            raise Violation(f"{where}: the conversion of one isotherm changed ANOTHER isotherm built from the same table (no "
+                            f"call was made on it): labels {twin0[0]} -> {now[0]}; data changed={twin0[1] != now[1]}",
+                            tag="bystander_changed")
         if err is not None:
             ctx.label("refused")
             if op["op"] != "convert":
